@@ -176,8 +176,12 @@ package bmtree
 
 //@ func AllPaths returns (paths)
 //@   requires 1 <= bitmapSize
+//@   reveal nodeP, nodeOK
+//@   instdepth 2
 //@   ensures forall k int :: 0 <= k && k < len(paths) ==> stored(bitmapSize, paths[k]) && from <= paths[k] && paths[k] < to
 //@   ensures forall k int :: 0 <= k && k < len(paths) - 1 ==> paths[k] < paths[k+1]
+// completeness (no gap): every node (b, z) of a stored level whose path word is in [from, to) is listed
+//@   ensures forall b uint64, z int32 :: nodeOK(bitmapSize, b, z) && from <= nodeP(bitmapSize, b, z) && nodeP(bitmapSize, b, z) < to ==> (exists k int :: 0 <= k && k < len(paths) && paths[k] == nodeP(bitmapSize, b, z))
 //@   ensures fresh(paths)
 //@   assigns nothing
 //@   loop 1
@@ -185,6 +189,8 @@ package bmtree
 //@     invariant forall k int :: 0 <= k && k < len(paths) ==> stored(bitmapSize, paths[k]) && from <= paths[k] && paths[k] < to
 //@     invariant forall k int :: 0 <= k && k < len(paths) - 1 ==> paths[k] < paths[k+1]
 //@     invariant len(paths) > 0 ==> paths[len(paths)-1] < i << 32
+//@     invariant from >> 32 <= i
+//@     invariant forall b uint64, z int32 :: nodeOK(bitmapSize, b, z) && from <= nodeP(bitmapSize, b, z) && nodeP(bitmapSize, b, z) < to && b < i ==> (exists k int :: 0 <= k && k < len(paths) && paths[k] == nodeP(bitmapSize, b, z))
 //@   loop 2
 //@     invariant fresh(paths) && height == hgt(bitmapSize) && 0 <= height && height <= 30 && fullPathCnt == uint64(1) << uint64(height) && fullPathMask == lowmask(int(height)) && t <= fullPathCnt && i < t
 //@     invariant -1 <= tz && tz <= height && (tz >= 0 ==> i & lowmask(int(tz)) == 0)
@@ -192,6 +198,8 @@ package bmtree
 //@     invariant forall k int :: 0 <= k && k < len(paths) - 1 ==> paths[k] < paths[k+1]
 //@     invariant len(paths) > 0 ==> paths[len(paths)-1] <= (i << 32) | fullPathMask
 //@     invariant len(paths) > 0 && tz >= 0 ==> paths[len(paths)-1] < (i << 32) | (fullPathMask ^ lowmask(int(tz)))
+//@     invariant from >> 32 <= i
+//@     invariant forall b uint64, z int32 :: nodeOK(bitmapSize, b, z) && from <= nodeP(bitmapSize, b, z) && nodeP(bitmapSize, b, z) < to && (b < i || (b == i && z > tz)) ==> (exists k int :: 0 <= k && k < len(paths) && paths[k] == nodeP(bitmapSize, b, z))
 //@     use pc32_maskdiff(int(height), int(tz))
 
 //@ func Decode returns (rst)
